@@ -1,6 +1,8 @@
 import PharmpyProofs.C06.Lemmas
 import PharmpyProofs.C06.EffLemmas
 import PharmpyProofs.C06.KindLemmas
+import PharmpyProofs.C06.NamesLemmas
+import PharmpyModel.Generated.Containers
 import PharmpyModel.Generated.EqHash
 import PharmpyModel.Generated.Effects
 /-
@@ -258,5 +260,105 @@ theorem all_public_functions_pass :
 
 /-- Non-vacuity: the table is large and nothing is left unanalysed. -/
 example : 200 ≤ Generated.effects.length ∧ Generated.unanalysed = [] := by decide +kernel
+
+/-! ## C. names are unique in the named collections (container algebra, T3c) -/
+
+section NamesSection
+open Names
+
+/-- `create` (Parameters.create, RandomVariables.create) accepts a list exactly when no name is
+    defined twice — any number of items, any number of names per item. -/
+theorem create_ok_iff (xs : List Item) :
+    (∃ ys, createChecked xs = .ok ys) ↔ (namesOf xs).Nodup := by
+  unfold createChecked
+  constructor
+  · rintro ⟨ys, h⟩
+    cases hc : checkFrom [] xs with
+    | error n => simp [hc] at h
+    | ok u => cases u; exact ((checkFrom_ok_iff [] xs).mp hc).1
+  · intro h
+    have := (checkFrom_ok_iff [] xs).mpr ⟨h, by simp⟩
+    exact ⟨xs, by simp [this]⟩
+
+/-- … and then returns the items unchanged. -/
+theorem create_returns_input (xs ys : List Item) (h : createChecked xs = .ok ys) : ys = xs := by
+  unfold createChecked at h
+  cases hc : checkFrom [] xs with
+  | error n => simp [hc] at h
+  | ok u => cases u; simp [hc] at h; exact h.symm
+
+/-- A collection operation that goes through the checking `create` returns only well-formed
+    collections: the concatenation, with no name defined twice. -/
+theorem checked_combine_wellformed (reflected : Bool) (self other r : List Item)
+    (h : combine .checked reflected self other = .ok r) :
+    uniqueNames r = true ∧ r = (if reflected then other ++ self else self ++ other) := by
+  simp only [combine] at h
+  have hr := create_returns_input _ _ h
+  refine ⟨?_, hr⟩
+  have := (create_ok_iff _).mp ⟨r, h⟩
+  rw [hr]
+  simpa [uniqueNames] using this
+
+/-- … and refuses whenever a name of the newcomer is already taken, whatever the other attributes
+    of the two items are (the clause the seeded `if item in self` variant loses). -/
+theorem checked_combine_refuses_collision (reflected : Bool) (self other : List Item) (n : String)
+    (h1 : n ∈ namesOf self) (h2 : n ∈ namesOf other) :
+    ∃ e, combine .checked reflected self other = .error e := by
+  simp only [combine]
+  cases hc : createChecked (if reflected then other ++ self else self ++ other) with
+  | error e => exact ⟨e, rfl⟩
+  | ok r =>
+    exfalso
+    have hnd := (create_ok_iff _).mp ⟨r, hc⟩
+    cases reflected
+    · simp only [Bool.false_eq_true, if_false, namesOf, List.flatMap_append] at hnd
+      exact (List.nodup_append.mp hnd).2.2 n h1 n h2 rfl
+    · simp only [if_true, namesOf, List.flatMap_append] at hnd
+      exact (List.nodup_append.mp hnd).2.2 n h2 n h1 rfl
+
+/-- It accepts every admissible addition (so refusal is not the trivial way to be safe). -/
+theorem checked_combine_accepts_fresh (self other : List Item)
+    (hs : (namesOf self).Nodup) (ho : (namesOf other).Nodup)
+    (hd : ∀ n ∈ namesOf self, n ∉ namesOf other) :
+    combine .checked false self other = .ok (self ++ other) := by
+  simp only [combine, Bool.false_eq_true, if_false]
+  have hnd : (namesOf (self ++ other)).Nodup := by
+    simp only [namesOf, List.flatMap_append]
+    exact List.nodup_append.mpr ⟨hs, ho, fun a ha b hb hab => hd a ha (hab ▸ hb)⟩
+  obtain ⟨ys, hy⟩ := (create_ok_iff _).mpr hnd
+  rw [hy, create_returns_input _ _ hy]
+
+/-- The raw constructor on a concatenation (RandomVariables.__add__, DataInfo at /repo 2f7a606) returns an
+    ill-formed collection for a newcomer with a taken name. -/
+theorem raw_combine_witness :
+    ∃ self other r, uniqueNames self = true ∧ uniqueNames other = true ∧
+      combine .raw false self other = .ok r ∧ uniqueNames r = false :=
+  ⟨[⟨["ETA_CL"], "iiv;0;IIV_CL"⟩], [⟨["ETA_CL"], "iiv;0;IIV_VC"⟩], _, by decide, by decide, rfl, by decide⟩
+
+/-- Testing the newcomer by *value* membership (`if param in self`) and then using the raw constructor
+    refuses an identical item but accepts one with a taken name and different init/bounds/fix. -/
+theorem by_value_combine_witness :
+    (∃ e, combine .byValue false [⟨["POP_KA"], "1.5;0;inf;False"⟩] [⟨["POP_KA"], "1.5;0;inf;False"⟩] = .error e) ∧
+    ∃ r, combine .byValue false [⟨["POP_KA"], "1.5;0;inf;False"⟩] [⟨["POP_KA"], "2.0;0;inf;False"⟩] = .ok r ∧
+      uniqueNames r = false :=
+  ⟨⟨"POP_KA", by rfl⟩,
+   [⟨["POP_KA"], "1.5;0;inf;False"⟩, ⟨["POP_KA"], "2.0;0;inf;False"⟩], by rfl, by decide⟩
+
+/-- Collection operations of /repo known not to go through a checking `create`:
+    RandomVariables `+` / reflected `+` use the raw constructor; DataInfo.create has no name check, so
+    none of DataInfo's operations has one. -/
+def knownUnchecked : List (String × String) :=
+  [("RandomVariables", "__add__"), ("RandomVariables", "__radd__"),
+   ("DataInfo", "create"), ("DataInfo", "replace"), ("DataInfo", "__add__"), ("DataInfo", "__radd__")]
+
+/-- Every other `create` / `replace` / `+` of the named collections (table regenerated from /repo on every
+    run) goes through the checking `create`; with `checked_combine_wellformed` its results have unique names. -/
+theorem all_container_ops_checked :
+    ∀ op ∈ Generated.containerOps, (op.cls, op.method) ∉ knownUnchecked → op.policy = .checked := by
+  decide +kernel
+
+example : 7 ≤ (Generated.containerOps.filter (fun op => op.policy == .checked)).length := by decide +kernel
+
+end NamesSection
 
 end Pharmpy.C06
